@@ -10,6 +10,7 @@ package mcap
     requires offset >= 0
     ensures err == nil ==> newoffset == offset + 2 && newoffset <= len(buf) && x == le16at(buf, offset)
     ensures err != nil ==> newoffset == 0
+    ensures (err == nil) == (offset <= len(buf) - 2)
 @*/
 
 /*@ func getUint32
@@ -17,6 +18,7 @@ package mcap
     requires offset >= 0
     ensures err == nil ==> newoffset == offset + 4 && newoffset <= len(buf) && x == le32at(buf, offset)
     ensures err != nil ==> newoffset == 0
+    ensures (err == nil) == (offset <= len(buf) - 4)
 @*/
 
 /*@ func getUint64
@@ -24,6 +26,7 @@ package mcap
     requires offset >= 0
     ensures err == nil ==> newoffset == offset + 8 && newoffset <= len(buf) && x == le64at(buf, offset)
     ensures err != nil ==> newoffset == 0
+    ensures (err == nil) == (offset <= len(buf) - 8)
 @*/
 
 /*@ func getPrefixedString
@@ -67,6 +70,10 @@ package mcap
 
 // ---------------------------------------------------------------------------------------------
 // Lexer (lexer.go, utils.go, parse.go:parseAttachmentReader, crc_reader.go)
+
+/*@ spec inWindow(s, e, t) = s <= t && t < e
+    spec smGet(sm, key) = ite(key < len(sm.items), sm.items[key], nil)
+@*/
 
 /*@ spec wfLexer(l) = l != nil && len(l.buf) == 32 && l.reader != nil && l.basereader != nil
 @*/
@@ -159,6 +166,8 @@ package mcap
     safety C10
     requires m != nil
     touches m
+    ensures [decoded-fields] {C01 C04 C11} err == nil ==> len(buf) >= 22 && m.ChannelID == old(le16at(buf, 0)) && m.Sequence == old(le32at(buf, 2)) && m.LogTime == old(le64at(buf, 6)) && m.PublishTime == old(le64at(buf, 14)) && len(m.Data) == len(buf) - 22
+    ensures [short-is-error] {C01 C11} err != nil ==> len(buf) < 22
 @*/
 
 /*@ spec wfUnindexed(it) = it != nil && wfLexer(it.lexer)
@@ -169,6 +178,10 @@ package mcap
     requires wfUnindexed(it)
     touches it, it.lexer, msg
     ensures wfUnindexed(it)
+    ensures [yield-in-window] {C04} r3 == nil ==> r2 != nil && inWindow(it.start, it.end, r2.LogTime)
+    ensures [yield-channel-selected] {C04} r3 == nil ==> r1 != nil && r1 == smGet(it.channels, r2.ChannelID)
+    loop 1 backedge [skip-only-unselected] {C04} tokenType == TokenMessage ==> (smGet(it.channels, msg.ChannelID) == nil || !inWindow(it.start, it.end, msg.LogTime))
+    loop 1 backedge [channel-kept-iff-selected] {C04} tokenType == TokenChannel && (len(it.topics) == 0 || it.topics[channelInfo.Topic]) ==> smGet(it.channels, channelInfo.ID) == channelInfo
     loop 1 invariant wfUnindexed(it) && msg != nil
 @*/
 
@@ -192,6 +205,7 @@ package mcap
     requires wfReader(r) && opts != nil
     touches opts, r.l
     ensures fresh(result) && wfUnindexed(result)
+    ensures [window-from-options] {C04} result.start == opts.StartNanos && result.end == opts.EndNanos
 @*/
 
 /*@ func (*Reader).indexedMessageIterator
@@ -201,6 +215,7 @@ package mcap
     ensures fresh(result) && result != nil && result.lexer == r.l && result.rs == r.rs && result.hasReadSummarySection == false
         && len(result.chunkIndexes) == 0 && len(result.messageIndexes) == 0 && result.curMessageIndex == 0 && result.curChunkIndex == 0
         && len(result.chunkSlots) == 0 && len(result.metadataIndexes) == 0
+    ensures [window-from-options] {C04} result.start == opts.StartNanos && result.end == opts.EndNanos && result.order == opts.Order
 @*/
 
 /*@ func (*indexedMessageIterator).seekTo
@@ -284,6 +299,7 @@ package mcap
 /*@ func (*Reader).Messages
     safety C10
     requires wfReader(r) && forall(k, 0, len(opts), opts[k] != nil)
+    ensures [no-option-selects-every-time] {C04} len(opts) == 0 && r1 == nil ==> forall(t, 0, 18446744073709551616, inWindow(options.StartNanos, options.EndNanos, t))
     loop 1 invariant wfReader(r)
 @*/
 
@@ -317,6 +333,9 @@ package mcap
     requires 0 <= i && i < len(unreadMessageIndexes) && 0 <= j && j < len(unreadMessageIndexes)
 @*/
 
+/*@ spec queueInWindow(it) = forall(k, it.curMessageIndex, len(it.messageIndexes), inWindow(it.start, it.end, it.messageIndexes[k].timestamp))
+@*/
+
 /*@ spec wfIndexed(it) = it != nil && wfLexer(it.lexer) && it.rs != nil
         && 0 <= it.curMessageIndex && it.curMessageIndex <= len(it.messageIndexes) && 0 <= it.curChunkIndex
         && forall(k, 0, len(it.chunkIndexes), it.chunkIndexes[k] != nil)
@@ -328,6 +347,13 @@ package mcap
     requires wfIndexed(it) && !it.hasReadSummarySection
     touches it
     ensures wfIndexed(it)
+    ensures old(queueInWindow(it)) ==> queueInWindow(it)
+    loop 1 backedge [window-match-without-offsets-is-kept] {C04} tokenType == TokenChunkIndex
+        && ((it.end == 0 && it.start == 0) || (idx.MessageStartTime < it.end && idx.MessageEndTime >= it.start)) && len(idx.MessageIndexOffsets) == 0
+        ==> len(it.chunkIndexes) == athead(len(it.chunkIndexes)) + 1 && it.chunkIndexes[len(it.chunkIndexes)-1] == idx
+    loop 1 backedge [time-pruning-sound] {C04} tokenType == TokenChunkIndex && len(it.chunkIndexes) == athead(len(it.chunkIndexes))
+        ==> !((it.end == 0 && it.start == 0) || (idx.MessageStartTime < it.end && idx.MessageEndTime >= it.start)) || len(idx.MessageIndexOffsets) > 0
+    loop 1 backedge [channel-kept-iff-selected] {C04} tokenType == TokenChannel && (len(it.topics) == 0 || it.topics[channelInfo.Topic]) ==> smGet(it.channels, channelInfo.ID) == channelInfo
     ensures err == nil ==> it.fileSize >= 28 && it.hasReadSummarySection
     ensures err != nil ==> !it.hasReadSummarySection
     loop 1 invariant wfIndexed(it) && it.fileSize >= 28 && wfLexer(lexer)
@@ -336,25 +362,35 @@ package mcap
 /*@ func (*indexedMessageIterator).loadChunk
     safety C10
     requires wfIndexed(it) && chunkIndex != nil && it.fileSize >= 28
+    requires queueInWindow(it)
     touches it
     ensures wfIndexed(it) && it.fileSize >= 28
+    ensures [queue-in-window] {C04} queueInWindow(it) && it.start == old(it.start) && it.end == old(it.end)
+    loop 2 invariant [queued-in-window] {C04} queueInWindow(it) && it.start == old(it.start) && it.end == old(it.end)
+    loop 2 backedge [none-missing] {C04} op == OpMessage && smGet(it.channels, athead(le16at(chunkSlot.buf, offset + 9))) != nil && inWindow(it.start, it.end, athead(le64at(chunkSlot.buf, offset + 15)))
+        ==> len(it.messageIndexes) == athead(len(it.messageIndexes)) + 1 && it.messageIndexes[len(it.messageIndexes)-1].timestamp == athead(le64at(chunkSlot.buf, offset + 15)) && it.messageIndexes[len(it.messageIndexes)-1].offset == athead(offset)
+    loop 2 backedge [none-extra] {C04} len(it.messageIndexes) == athead(len(it.messageIndexes)) || (len(it.messageIndexes) == athead(len(it.messageIndexes)) + 1 && op == OpMessage)
     loop 2 invariant len(it.messageIndexes) >= startIdx
 @*/
 
 /*@ func (*indexedMessageIterator).NextInto
     safety C10
     requires wfIndexed(it) && (it.hasReadSummarySection ==> it.fileSize >= 28)
+    requires queueInWindow(it)
     touches it, msg
     ensures wfIndexed(it) && (it.hasReadSummarySection ==> it.fileSize >= 28)
-    loop 1 invariant wfIndexed(it) && msg != nil && it.fileSize >= 28
-    loop 2 invariant wfIndexed(it) && msg != nil && it.fileSize >= 28
+    ensures [queue-in-window] {C04} queueInWindow(it)
+    loop 1 invariant wfIndexed(it) && msg != nil && it.fileSize >= 28 && queueInWindow(it)
+    loop 2 invariant wfIndexed(it) && msg != nil && it.fileSize >= 28 && queueInWindow(it)
 @*/
 
 /*@ func (*indexedMessageIterator).Next
     safety C10
     requires wfIndexed(it) && (it.hasReadSummarySection ==> it.fileSize >= 28)
+    requires queueInWindow(it)
     touches it
     ensures wfIndexed(it) && (it.hasReadSummarySection ==> it.fileSize >= 28)
+    ensures queueInWindow(it)
 @*/
 
 // ---------------------------------------------------------------------------------------------
@@ -770,4 +806,53 @@ package mcap
     requires w != nil && opts != nil && !failed(w)
     ensures r1 == nil ==> wfWriter(r0) && wfIndexes(r0) && sink(r0) == w
     ensures failed(w) ==> r1 != nil
+@*/
+
+// ---------------------------------------------------------------------------------------------
+// Read options (reader_options.go): every option has an exact contract (C04)
+
+/*@ func AfterNanos$1
+    tags C04
+    safety C10
+    requires ro != nil
+    touches ro
+    ensures [after-nanos] {C04} old(ro.EndNanos) < start ==> r0 != nil && ro.StartNanos == old(ro.StartNanos) && ro.EndNanos == old(ro.EndNanos)
+    ensures [after-nanos] {C04} old(ro.EndNanos) >= start ==> r0 == nil && ro.StartNanos == start && ro.EndNanos == old(ro.EndNanos)
+@*/
+/*@ func BeforeNanos$1
+    tags C04
+    safety C10
+    requires ro != nil
+    touches ro
+    ensures [before-nanos] {C04} end < old(ro.StartNanos) ==> r0 != nil && ro.StartNanos == old(ro.StartNanos) && ro.EndNanos == old(ro.EndNanos)
+    ensures [before-nanos] {C04} end >= old(ro.StartNanos) ==> r0 == nil && ro.EndNanos == end && ro.StartNanos == old(ro.StartNanos)
+@*/
+/*@ func (*ReadOptions).Finalize
+    tags C04
+    safety C10
+    requires ro != nil
+    touches ro
+    ensures [finalize] {C04} ro.StartNanos == ite(old(ro.StartNanos) == 0 && old(ro.Start) > 0, old(ro.Start), old(ro.StartNanos))
+    ensures [finalize] {C04} ro.EndNanos == ite(old(ro.EndNanos) == 0 && old(ro.End) > 0, old(ro.End), old(ro.EndNanos))
+@*/
+
+/*@ func verifLemmaAfter
+    tags C04
+    safety C04
+    requires s >= 0
+    ensures [after-means-after-nanos] {C04} (ea == nil) == (eb == nil)
+    ensures [after-means-after-nanos] {C04} ea == nil ==> a.StartNanos == b.StartNanos && a.EndNanos == b.EndNanos
+@*/
+/*@ func verifLemmaBefore
+    tags C04
+    safety C04
+    requires e >= 0
+    ensures [before-means-before-nanos] {C04} (ea == nil) == (eb == nil)
+    ensures [before-means-before-nanos] {C04} ea == nil ==> a.StartNanos == b.StartNanos && a.EndNanos == b.EndNanos
+@*/
+/*@ func verifLemmaOrder
+    tags C04
+    safety C04
+    requires s <= e
+    ensures [order-independent] {C04} ea1 == nil && ea2 == nil && eb1 == nil && eb2 == nil && a.StartNanos == b.StartNanos && a.EndNanos == b.EndNanos && a.StartNanos == s && a.EndNanos == e
 @*/
